@@ -162,6 +162,11 @@ func protocolMore(t *testing.T, bind *Binding, job *Job, p *sdl.Program, acc *st
 					if subj, _, _ := strings.Cut(rest, "#"); isCloser[subj] {
 						n++
 						do(faultSpec(firstSpec, first, site))
+						// ... and when the start fails, the application retries the refresh on the same
+						// App and shuts down what it then has
+						rs := faultSpec(firstSpec, first, site)
+						rs.RetryRefresh = true
+						do(rs)
 					}
 				}
 			}
